@@ -522,7 +522,10 @@ pub trait GuestMemory {
                         _ => return Err(Error::CallbackOutOfRange),
                     };
                     cur = match cur.overflowing_add(len as GuestUsize) {
-                        (x @ GuestAddress(0), _) | (x, false) => x,
+                        (x, false) => x,
+                        // The access reached the end of the address space with data still
+                        // left to handle: stop there instead of wrapping around to address 0.
+                        (GuestAddress(0), true) => return Ok(total),
                         (_, true) => return Err(Error::GuestAddressOverflow),
                     };
                 }
